@@ -11,6 +11,9 @@ for d in sorted(glob.glob("/verif/seeded/*"), key=key):
     files = sorted(set(re.findall(r"^diff --git a/(\S+)", open(d + "/patch.diff").read(), re.M)))
     files = [f for f in files if not f.endswith(".rl") or f.replace(".rl", ".go") not in files]
     det = meta.get("detected_by") or []
+    if meta.get("retired"):
+        rows.append(f"| {sid} | {', '.join(files)} | (retired: its mechanism cannot exist on the repaired tree; caught when it was written by {', '.join(det)}) | |")
+        continue
     k = ""
     for r in meta.get("ran", []):
         if r["exit"] == 1 and r["violation_keys"]:
